@@ -1320,6 +1320,26 @@ func c17GenOvURI(rnd *rt.Rand, t *c17Target) c17Case {
 			cs.Tokens = append(cs.Tokens[:at], append([]c17Tok{tk}, cs.Tokens[at:]...)...)
 		}
 	}
+	// the last value wins whatever the earlier ones are: now and then an
+	// overridden (non-last) value of a number or truth-value member is
+	// text that the member's type does not accept
+	if rnd.Chance(1, 3) {
+		last := map[string]int{}
+		for i, tk := range cs.Tokens {
+			last[tk.Key] = i
+		}
+		for i, tk := range cs.Tokens {
+			if last[tk.Key] == i {
+				continue
+			}
+			for _, f := range cand {
+				if f.Key == tk.Key && (f.Kind == reflect.Int || f.Kind == reflect.Bool) && rnd.Chance(1, 2) {
+					cs.Tokens[i].Val = []string{"default", "x1", "", "1.5", "yes!"}[rnd.Intn(5)]
+					cs.Note = "an overridden value is not acceptable text for the member's type"
+				}
+			}
+		}
+	}
 	return cs
 }
 
